@@ -13,9 +13,12 @@ func emitWriterCode(repo string) (string, error) {
 		prelude: `/-- calling a ` + "`BeforeFunc`" + ` with the writer: a hook is an observer of the writer (it may set headers); that it ran, and when,
 is recorded in the trace of the wrapped http.ResponseWriter (Model/Writer makes the same assumption) -/
 def call_BeforeFunc (f : FuncVal) (w : responseWriter) : responseWriter :=
-  { w with ResponseWriter := w.ResponseWriter.record ("hook", [f]) }
+  { w with ResponseWriter := w.ResponseWriter.record ("hook", [Arg.int f]) }
 `,
-		skip:  map[string]string{},
-		ctors: []string{"NewResponseWriter"},
+		skip: map[string]string{},
+		// a field of a type outside the subset (a timestamp, a counter object …) is kept as `Opaque`: the methods that do not
+		// touch it stay translated
+		opaqueFields: true,
+		ctors:        []string{"NewResponseWriter"},
 	})
 }
